@@ -49,17 +49,144 @@ def all_returns(fn: ast.FunctionDef) -> List[ast.Return]:
     return out
 
 
-def not_implemented_vars(fn: ast.FunctionDef) -> set:
-    """names tested `x == NotImplemented` / `x is NotImplemented` (their guarded return passes NotImplemented on)"""
-    names = set()
+def ni_test(test):
+    """`x is NotImplemented` / `x == NotImplemented` -> (x, True); `x is not NotImplemented` / `x != NotImplemented` ->
+    (x, False); `not <test>` flips; anything else -> None"""
+    if isinstance(test, ast.UnaryOp) and isinstance(test.op, ast.Not):
+        r = ni_test(test.operand)
+        return (r[0], not r[1]) if r else None
+    if isinstance(test, ast.Compare) and len(test.ops) == 1:
+        a, b = uncast(test.left), uncast(test.comparators[0])
+        if isinstance(b, ast.Name) and b.id == "NotImplemented" and isinstance(a, ast.Name):
+            name = a.id
+        elif isinstance(a, ast.Name) and a.id == "NotImplemented" and isinstance(b, ast.Name):
+            name = b.id
+        else:
+            return None
+        if isinstance(test.ops[0], (ast.Eq, ast.Is)):
+            return name, True
+        if isinstance(test.ops[0], (ast.NotEq, ast.IsNot)):
+            return name, False
+    return None
+
+
+def terminates(body: List[ast.stmt]) -> bool:
+    return bool(body) and isinstance(body[-1], (ast.Return, ast.Raise))
+
+
+def guarded_returns(body: List[ast.stmt], guards: frozenset = frozenset()):
+    """every `return` reachable in the statement list, with the set of local names known to hold `NotImplemented`
+    there (inside `if x is NotImplemented:`, in the `else` of / after a terminating `if x is not NotImplemented:`)"""
+    out = []
+    for st in body:
+        if isinstance(st, (ast.FunctionDef, ast.Lambda, ast.ClassDef)):
+            continue
+        if isinstance(st, ast.Return):
+            out.append((st, guards))
+        elif isinstance(st, ast.If):
+            t = ni_test(st.test)
+            gb = guards | {t[0]} if t and t[1] else guards
+            ge = guards | {t[0]} if t and not t[1] else guards
+            out += guarded_returns(st.body, gb)
+            out += guarded_returns(st.orelse, ge)
+            if t and not t[1] and terminates(st.body) and not st.orelse:
+                guards = guards | {t[0]}
+        elif isinstance(st, (ast.Assign, ast.AnnAssign, ast.AugAssign)):
+            tgt = st.targets[0] if isinstance(st, ast.Assign) else st.target
+            if isinstance(tgt, ast.Name):
+                guards = guards - {tgt.id}          # re-bound: no longer known
+        else:
+            for fld in ("body", "orelse", "finalbody"):
+                sub = getattr(st, fld, None)
+                if isinstance(sub, list) and sub and isinstance(sub[0], ast.stmt):
+                    out += guarded_returns(sub, guards)
+            for h in getattr(st, "handlers", []) or []:
+                out += guarded_returns(h.body, guards)
+    return out
+
+
+def local_assignments(fn: ast.FunctionDef) -> Dict[str, List[ast.AST]]:
+    out: Dict[str, List[ast.AST]] = {}
     for node in ast.walk(fn):
-        if isinstance(node, ast.Compare) and len(node.ops) == 1 and isinstance(node.ops[0], (ast.Eq, ast.Is)) \
-                and ast.unparse(node.comparators[0]) == "NotImplemented" and isinstance(node.left, ast.Name):
-            names.add(node.left.id)
-    return names
+        if isinstance(node, ast.Assign) and len(node.targets) == 1 and isinstance(node.targets[0], ast.Name):
+            out.setdefault(node.targets[0].id, []).append(node.value)
+        elif isinstance(node, ast.AnnAssign) and isinstance(node.target, ast.Name) and node.value is not None:
+            out.setdefault(node.target.id, []).append(node.value)
+        elif isinstance(node, (ast.AugAssign, ast.For, ast.With, ast.NamedExpr)):
+            for n in ast.walk(node.target if hasattr(node, "target") else node):
+                if isinstance(n, ast.Name) and isinstance(n.ctx, ast.Store):
+                    out.setdefault(n.id, []).append(None)      # bound in a way this extractor does not follow
+    return out
 
 
-def classify_arith(clsname: str, cls: ast.ClassDef, dunder: str):
+class ClassesOf:
+    """Which wrapper classes the values RETURNED by a dunder are instances of (in source order), following
+    `cast(…)`, locals a result is bound to before it is returned, conditional expressions, and ONE level of calls to a
+    module-level helper function or to a method of the same class (`self._helper(…)`), whose own returns are
+    classified the same way.  `NotImplemented` (spelled out, or a local under a guard that says it is
+    `NotImplemented`) is passed on and contributes no class.  Anything else -- a raw `super().__op__(…)` result, a
+    parameter, an unknown call -- is outside the subset: TranslationError (handled like a broken bridge)."""
+
+    def __init__(self, mod: ast.Module, cls: Optional[ast.ClassDef], where: str):
+        self.mod, self.cls, self.where = mod, cls, where
+
+    def helper(self, call: ast.Call) -> Optional[ast.FunctionDef]:
+        f = call.func
+        if isinstance(f, ast.Name):
+            for st in self.mod.body:
+                if isinstance(st, ast.FunctionDef) and st.name == f.id:
+                    return st
+        if isinstance(f, ast.Attribute) and isinstance(f.value, ast.Name) and f.value.id in ("self", "cls") and self.cls is not None:
+            m = class_methods(self.cls).get(f.attr)
+            if isinstance(m, ast.FunctionDef):
+                return m
+        return None
+
+    def of_function(self, fn: ast.FunctionDef, depth: int) -> List[str]:
+        assigned = local_assignments(fn)
+        params = {a.arg for a in fn.args.args + fn.args.kwonlyargs + fn.args.posonlyargs}
+        rets = guarded_returns(fn.body)
+        if not rets:
+            raise TranslationError(f"{self.where}: {fn.name} has no return")
+        classes: List[str] = []
+        for r, guards in rets:
+            if r.value is None:
+                raise TranslationError(f"{self.where}: bare return in {fn.name}")
+            for c in self.of_expr(r.value, fn, assigned, params, guards, depth, ()):
+                if c not in classes:
+                    classes.append(c)
+        return classes
+
+    def of_expr(self, e, fn, assigned, params, guards, depth, seen) -> List[str]:
+        e = uncast(e)
+        if isinstance(e, ast.Name):
+            if e.id == "NotImplemented" or e.id in guards:
+                return []
+            if e.id in assigned and e.id not in params and e.id not in seen and len(seen) < 3:
+                out: List[str] = []
+                for v in assigned[e.id]:
+                    if v is None:
+                        raise TranslationError(f"{self.where}: {e.id} is bound outside the subset")
+                    out += self.of_expr(v, fn, assigned, params, frozenset(), depth, seen + (e.id,))
+                return out
+            raise TranslationError(f"{self.where}: returns {e.id!r}, whose class is not known")
+        if isinstance(e, ast.IfExp):
+            t = ni_test(e.test)
+            gb = guards | {t[0]} if t and t[1] else guards
+            ge = guards | {t[0]} if t and not t[1] else guards
+            return (self.of_expr(e.body, fn, assigned, params, gb, depth, seen)
+                    + self.of_expr(e.orelse, fn, assigned, params, ge, depth, seen))
+        if isinstance(e, ast.Call):
+            c = short(ast.unparse(e.func))
+            if c in CLS_TAG and c != "NoneType":
+                return [CLS_TAG[c]]
+            h = self.helper(e)
+            if h is not None and depth < 1 and h is not fn:
+                return self.of_function(h, depth + 1)
+        raise TranslationError(f"{self.where}: return outside the subset: {ast.unparse(e)[:80]!r}")
+
+
+def classify_arith(clsname: str, cls: ast.ClassDef, dunder: str, mod: Optional[ast.Module] = None):
     ms = class_methods(cls)
     if dunder not in ms:
         return "inherit", []
@@ -67,31 +194,19 @@ def classify_arith(clsname: str, cls: ast.ClassDef, dunder: str):
     if not isinstance(fn, ast.FunctionDef):
         raise TranslationError(f"{clsname}.{dunder} is an alias")
     body = body_of(fn)
-    rets = all_returns(fn)
-    if not rets:
+    if not all_returns(fn):
         if body and all(is_raise_typeerror(s) for s in body):
             return "raises", []
         raise TranslationError(f"{clsname}.{dunder}: no return and not a plain raise TypeError")
-    ni = not_implemented_vars(fn)
-    classes: List[str] = []
-    for r in rets:
-        v = uncast(r.value) if r.value is not None else None
-        if v is None:
-            raise TranslationError(f"{clsname}.{dunder}: bare return")
-        if isinstance(v, ast.Name) and (v.id == "NotImplemented" or v.id in ni):
-            continue
-        c = short(callee(v))
-        if c in CLS_TAG:
-            if CLS_TAG[c] not in classes:
-                classes.append(CLS_TAG[c])
-            continue
-        raise TranslationError(f"{clsname}.{dunder}: return outside the subset: {ast.unparse(r)[:80]!r}")
-    return "returns", classes
+    return "returns", ClassesOf(mod if mod is not None else ast.Module(body=[], type_ignores=[]), cls,
+                                f"{clsname}.{dunder}").of_function(fn, 0)
 
 
-def returns_built_by(fn: ast.FunctionDef, ctor: str, passthrough_ok=True) -> bool:
+def returns_built_by(fn: ast.FunctionDef, ctor: str, passthrough_ok=True, mod: Optional[ast.Module] = None, _depth=0) -> bool:
     """every value the function returns is `ctor(…)`, an error object (`CELEvalError(…)`, possibly via a variable or a
-    parameter guarded by isinstance(…, CELEvalError)), or a local variable only ever assigned such values"""
+    parameter guarded by isinstance(…, CELEvalError)), a local variable only ever assigned such values, a conditional
+    expression whose two arms are such values, or the result of ONE level of a module-level helper function all of
+    whose returns are such values (the helper's own parameters do not count)"""
     params = {a.arg for a in fn.args.args}
     assigned: Dict[str, List[ast.AST]] = {}
     for node in ast.walk(fn):
@@ -104,6 +219,8 @@ def returns_built_by(fn: ast.FunctionDef, ctor: str, passthrough_ok=True) -> boo
 
     def ok(e, depth=0) -> bool:
         e = uncast(e)
+        if isinstance(e, ast.IfExp):
+            return ok(e.body, depth) and ok(e.orelse, depth)
         c = short(callee(e))
         if c == ctor:
             return True
@@ -114,6 +231,10 @@ def returns_built_by(fn: ast.FunctionDef, ctor: str, passthrough_ok=True) -> boo
                 return passthrough_ok
             if e.id in assigned and depth < 3:
                 return all(ok(v, depth + 1) for v in assigned[e.id])
+        if isinstance(e, ast.Call) and isinstance(e.func, ast.Name) and mod is not None and _depth < 1:
+            for st in mod.body:
+                if isinstance(st, ast.FunctionDef) and st.name == e.func.id and st is not fn:
+                    return returns_built_by(st, ctor, passthrough_ok=False, mod=mod, _depth=_depth + 1)
         return False
     rets = all_returns(fn)
     return bool(rets) and all(r.value is not None and ok(r.value) for r in rets)
@@ -183,7 +304,7 @@ def list_results_wrap(ev: ast.Module) -> bool:
     ok = True
     for name in ("macro_map", "macro_filter"):
         fn = find_func(ev.body, name)
-        ok = ok and returns_built_by(fn, "ListType", passthrough_ok=False)
+        ok = ok and returns_built_by(fn, "ListType", passthrough_ok=False, mod=ev)
     cls = find_class(ev, "Evaluator")
     mda = find_func(cls.body, "member_dot_arg")
     for name in ("map", "filter"):
@@ -242,7 +363,7 @@ def accessors_wrap(m: ast.Module, ev: ast.Module) -> bool:
     ts, dur = find_class(m, "TimestampType"), find_class(m, "DurationType")
     for name in ACCESSORS:
         fn = find_func(ev.body, f"function_{name}")
-        if returns_built_by(fn, "IntType", passthrough_ok=False):
+        if returns_built_by(fn, "IntType", passthrough_ok=False, mod=ev):
             continue
         params = [a.arg for a in fn.args.args]
         rets = all_returns(fn)
@@ -304,8 +425,78 @@ def new_returns_self(clsname: str, cls: ast.ClassDef) -> bool:
     return True
 
 
+class _Subst(ast.NodeTransformer):
+    def __init__(self, env):
+        self.env = env
+
+    def visit_Name(self, node):
+        if isinstance(node.ctx, ast.Load) and node.id in self.env:
+            return self.env[node.id]
+        return node
+
+
+def _norm_test(t):
+    """-> (canonical text, negated?)  `not X`, `a is not b`, `a != b` are the negations of `X`, `a is b`, `a == b`;
+    the two sides of `is` / `==` are ordered textually"""
+    neg = False
+    while isinstance(t, ast.UnaryOp) and isinstance(t.op, ast.Not):
+        t, neg = t.operand, not neg
+    if isinstance(t, ast.Compare) and len(t.ops) == 1 and isinstance(t.ops[0], (ast.Is, ast.IsNot, ast.Eq, ast.NotEq)):
+        a, b = sorted([ast.unparse(uncast(t.left)), ast.unparse(uncast(t.comparators[0]))])
+        if isinstance(t.ops[0], (ast.IsNot, ast.NotEq)):
+            neg = not neg
+        sym = "is" if isinstance(t.ops[0], (ast.Is, ast.IsNot)) else "=="
+        return f"{a} {sym} {b}", neg
+    return ast.unparse(t), neg
+
+
+def decision_tree(stmts: List[ast.stmt], env=None):
+    """The function body as a decision tree ("ret", text) | ("if", test, then, else) | ("raise", text), independent of
+    how it is spelled: early returns vs. else chains vs. conditional expressions, negated tests with the arms
+    swapped, single-assignment locals that only name a sub-expression (substituted).  None = outside the subset."""
+    env = dict(env or {})
+
+    def expr_tree(e):
+        e = uncast(e)
+        if isinstance(e, ast.IfExp):
+            t, neg = _norm_test(_Subst(env).visit(_copy(e.test)))
+            a, b = expr_tree(e.body), expr_tree(e.orelse)
+            return ("if", t, b, a) if neg else ("if", t, a, b)
+        return ("ret", ast.unparse(uncast(_Subst(env).visit(_copy(e)))))
+
+    for i, st in enumerate(stmts):
+        if is_logger_call(st) or (isinstance(st, ast.Expr) and isinstance(st.value, ast.Constant)) or isinstance(st, ast.Pass):
+            continue
+        if isinstance(st, (ast.Assign, ast.AnnAssign)):
+            tgt = st.targets[0] if isinstance(st, ast.Assign) and len(st.targets) == 1 else getattr(st, "target", None)
+            if not isinstance(tgt, ast.Name) or st.value is None or tgt.id in env:
+                return None
+            env[tgt.id] = _Subst(env).visit(_copy(uncast(st.value)))
+            continue
+        if isinstance(st, ast.Return):
+            return expr_tree(st.value) if st.value is not None else ("ret", "None")
+        if isinstance(st, ast.Raise):
+            return ("raise", ast.unparse(st.exc) if st.exc is not None else "")
+        if isinstance(st, ast.If):
+            rest = stmts[i + 1:]
+            t, neg = _norm_test(_Subst(env).visit(_copy(st.test)))
+            a = decision_tree(list(st.body) + ([] if terminates(st.body) else rest), env)
+            b = decision_tree(list(st.orelse) + ([] if terminates(st.orelse) else rest), env)
+            if a is None or b is None:
+                return None
+            return ("if", t, b, a) if neg else ("if", t, a, b)
+        return None
+    return None
+
+
+def _copy(node):
+    import copy
+    return copy.deepcopy(node)
+
+
 def type_type_shape(cls: ast.ClassDef) -> bool:
-    """`if type(instance) is type: return typ` ; `return type(instance)`"""
+    """`TypeType.__new__(typ, instance)` decides: `type(instance) is type` -> `typ`, otherwise `type(instance)` — however
+    it is spelled (early return / else / conditional expression / negated test / a local naming `type(instance)`)"""
     fn = class_methods(cls).get("__new__")
     if not isinstance(fn, ast.FunctionDef):
         return False
@@ -313,10 +504,9 @@ def type_type_shape(cls: ast.ClassDef) -> bool:
     if len(params) != 2:
         return False
     typ, inst = params
-    body = body_of(fn)
-    return (len(body) == 2 and isinstance(body[0], ast.If) and ast.unparse(body[0].test) == f"type({inst}) is type"
-            and len(body[0].body) == 1 and isinstance(body[0].body[0], ast.Return) and ast.unparse(body[0].body[0].value) == typ
-            and not body[0].orelse and isinstance(body[1], ast.Return) and ast.unparse(body[1].value) == f"type({inst})")
+    tree = decision_tree(body_of(fn))
+    test, _ = _norm_test(ast.parse(f"type({inst}) is type", mode="eval").body)
+    return tree == ("if", test, ("ret", typ), ("ret", f"type({inst})"))
 
 
 def gen_resultcls() -> str:
@@ -334,7 +524,7 @@ def gen_resultcls() -> str:
                 if op == "neg" and refl:
                     continue
                 dunder = f"__{'r' if refl else ''}{pyname}__"
-                kind, classes = classify_arith(clsname, cls, dunder)
+                kind, classes = classify_arith(clsname, cls, dunder, m)
                 if kind == "inherit":
                     continue
                 if kind == "raises":
@@ -347,16 +537,16 @@ def gen_resultcls() -> str:
     evcls = find_class(ev, "Evaluator")
     spec = [
         rel_wraps,
-        returns_built_by(find_func(ev.body, "operator_in"), "BoolType"),
-        returns_built_by(find_func(evcls.body, "macro_has_eval"), "BoolType", passthrough_ok=False),
+        returns_built_by(find_func(ev.body, "operator_in"), "BoolType", mod=ev),
+        returns_built_by(find_func(evcls.body, "macro_has_eval"), "BoolType", passthrough_ok=False, mod=ev),
         has_template_wraps(ev),
-        all(returns_built_by(find_func(ev.body, f), "BoolType", passthrough_ok=False)
+        all(returns_built_by(find_func(ev.body, f), "BoolType", passthrough_ok=False, mod=ev)
             for f in ("function_startsWith", "function_endsWith", "function_contains", "function_matches")),
-        returns_built_by(find_func(ev.body, "function_size"), "IntType", passthrough_ok=False),
+        returns_built_by(find_func(ev.body, "function_size"), "IntType", passthrough_ok=False, mod=ev),
         interp_macros_wrap(ev),
-        all(returns_built_by(find_func(ev.body, f), "BoolType", passthrough_ok=False)
+        all(returns_built_by(find_func(ev.body, f), "BoolType", passthrough_ok=False, mod=ev)
             for f in ("macro_all", "macro_exists", "macro_exists_one")),
-        all(returns_built_by(find_func(m.body, f), "BoolType") for f in ("logical_and", "logical_or", "logical_not")),
+        all(returns_built_by(find_func(m.body, f), "BoolType", mod=m) for f in ("logical_and", "logical_or", "logical_not")),
         list_results_wrap(ev),
         accessors_wrap(m, ev),
     ]
